@@ -55,7 +55,7 @@ def run_case(cs):
     rng = cs.rng
     d = cs.dir()
     area = os.path.join(d, "area")
-    root = os.path.join(area, "root")
+    root = os.path.join(area, world.root_name(rng, "root"))
     dest = os.path.join(area, "dest")
     skel = rng.choice([[], [], ["K"], ["K", "K/L"], ["K", "K/L", "K/L/M"], ["A", "B"]])
     # the folders that carry nested histories get names from several classes (hidden, blanks, non-ASCII, dots)
